@@ -2,7 +2,7 @@
    (Gen/LocationGen.v, Gen/BodyGen.v) ARE the model's, by computation.  A changed slice, separator,
    prefix, key, field name or base64 flavour in the source breaks the lemma named after it. *)
 From Coq Require Import String Ascii List Bool.
-From Replicat Require Import Lib.PyStr Model.Json Model.Location Model.SnapBody.
+From Replicat Require Import Lib.PyStr Model.Json Model.Location Model.SnapBody Proofs.LocationProofs.
 From Replicat Require Gen.LocationGen Gen.BodyGen Gen.SrcFacts.
 Import ListNotations.
 Local Open Scope string_scope.
@@ -62,3 +62,11 @@ Lemma tie_metadata_only_finalises : BodyGen.gen_metadata_only_finalises = true.
 Proof. reflexivity. Qed.
 Lemma tie_key_fields : BodyGen.gen_mac_and_subkey_fields = ["mac_params"; "shared_key"; "shared_kdf_params"].
 Proof. reflexivity. Qed.
+
+(* the round trips, about the TRANSLATED definitions *)
+Lemma gen_chunk_roundtrip (name tag : string) : hexs name -> hexs tag -> 4 <= String.length tag ->
+  LocationGen.gen_parse_chunk_location (LocationGen.gen_get_chunk_location name tag) = Some (name, tag).
+Proof. rewrite tie_get_chunk_location, tie_parse_chunk_location. apply chunk_roundtrip. Qed.
+Lemma gen_snapshot_roundtrip (name tag : string) : hexs name -> hexs tag -> 2 <= String.length tag ->
+  LocationGen.gen_parse_snapshot_location (LocationGen.gen_get_snapshot_location name tag) = Some (name, tag).
+Proof. rewrite tie_get_snapshot_location, tie_parse_snapshot_location. apply snapshot_roundtrip. Qed.
